@@ -282,7 +282,7 @@ def check_dom(ctx, w):
     henv = expr.FEnv(h.node, params=('file',), inline=False)
     tr = expr.assign_trace(h.node, henv)
     ctx.ob('R-DOM', h.construct, 'CRC folds every chunk into one running value from 0',
-           tr.get('checksum') == [('=', '0'), ('=', 'crc32(binascii,d,checksum)')] and tr.get('d') == [('=', 'read(file,4096)'), ('=', 'read(file,4096)')] and
+           tr.get('checksum') == [('=', '0'), ('=', 'crc32(binascii,d,checksum)')] and tr.get('d') == [('=', 'read(file,4096)')] and      # one read at the head of each iteration (canonical loop form, N24/N21)
            [expr.nfs(r.value, henv) for r in expr.returns_of(h.node)] == ['checksum'], got=tr)
 
 
